@@ -62,8 +62,27 @@ class _Alarm(object):
         return False
 
 
+DEBUG_FLAGS = ['searcher', 'reader', 'parser', 'codegen', 'writer', 'compiler', 'borrower']
+
+
 def run_one(mod, scn, cap=None):
     """-> outcome dict; never raises (harness errors are recorded)."""
+    if scn.get('debug'):
+        # pysmi's diagnostic logging is a configuration like any other: results must not depend on it
+        from pysmi import debug as pdebug
+        pdebug.setLogger(pdebug.Debug(*DEBUG_FLAGS, **{'loggerName': 'pysmi.sim'}))
+        try:
+            out = _run_one(mod, scn, cap)
+        finally:
+            pdebug.setLogger(0)
+        out.setdefault('probes', {})['pysmi-debug-logging-on'] = 1
+        if out.get('sig'):
+            out['sig'] = out['sig'] + '|debug'
+        return out
+    return _run_one(mod, scn, cap)
+
+
+def _run_one(mod, scn, cap=None):
     cap = cap or getattr(mod, 'WORLD_CAP_S', 60)
     try:
         try:
@@ -198,6 +217,8 @@ def _chunk_seeded(prop, tier, seed, lo, hi):
         try:
             scn = mod.generate(random.Random(ws), tier)
             scn['_world'] = {'index': i, 'world_seed': str(ws)}
+            if random.Random(H(ws, 'debug')).random() < 0.07:
+                scn['debug'] = True
         except Exception as e:
             agg.harness_errors.append('generate failed index %d: %s\n%s' % (i, e, traceback.format_exc()))
             continue
@@ -229,6 +250,8 @@ def fingerprints_for(prop, tier, seed, n, start=0):
     for i in range(start, start + n):
         ws = world_seed(seed, prop, tier, i)
         scn = mod.generate(random.Random(ws), tier)
+        if random.Random(H(ws, 'debug')).random() < 0.07:
+            scn['debug'] = True
         out = run_one(mod, scn)
         res.append([out['fp'], out['fph'], bool(out.get('harness_error'))])
     return res
@@ -302,10 +325,17 @@ def minimise(mod, scn, v, budget_s=30):
     size0 = mod.size(scn) if hasattr(mod, 'size') else None
     if not hasattr(mod, 'shrink'):
         return best, bestv, size0
+    def cands(scn_):
+        if scn_.get('debug'):
+            c = dict(scn_)
+            c.pop('debug')
+            yield c
+        for c in mod.shrink(scn_):
+            yield c
     progress = True
     while progress and REAL_MONO() - t0 < budget_s:
         progress = False
-        for cand in mod.shrink(best):
+        for cand in cands(best):
             if REAL_MONO() - t0 > budget_s:
                 break
             out = run_one(mod, cand)
